@@ -11,6 +11,13 @@
 //! harness-native coordinate-formula reference `oracle`, which is compared with the full model answer on EVERY other case of the
 //! run (counted in the `oracle_report` lines); `exec` additionally re-runs the previous case after a share of the cases (implicit
 //! A–B–A) and demands the identical answer.
+//!
+//! Robustness streams, part 3: `n call iota:<shape> …` lines are GIANT arrays (2^20 < count <= 2.2·10^6, built by the harness, never
+//! formatted) judged in place by the same native reference on the i64 tags, the u8 image on `Ok(array)` and one further image
+//! (12-byte / 3-byte tuples, an all-zero f64 array with both signs, a user type whose `==` is always true); `v call` lines and a
+//! share of all ordinary cases run the VALUE-RELATION and LAYOUT images of the tag array (all elements `==` but not identical:
+//! f64 / f32 / Tuple2 / List made of 0.0 and -0.0 only, the user type `AllEq`; Tuple3<i32,i32,i32>, Tuple3<u8,u8,u8>,
+//! Tuple2<String,i32>) on both receivers; shifts / turn counts near k·2^64/stride.
 use arrharness::*;
 use std::cell::RefCell;
 
@@ -154,7 +161,9 @@ fn gen(tier: &str, seed: u64, out: &mut dyn FnMut(String)) {
     let mut rng = Rng::new(seed);
     for l in ["flip i1,3,3 1", "flip i2,3,4 1", "roll i3 7 none", "roll i2,3,2 1 1", "roll i3 -7 0",
               // round-2 corpus: one axis under two spellings; -0.0 through an odd quarter turn; non-square matrices with both axes >= 8
-              "roll i3 5 0,-1", "roll i2,5 1,2 1,-1", "rot90 2,3:0,1,0,2,0,3 1 0,1", "rot90 i8,9 1 0,1", "rot90 i9,8 1 0,1", "rot90 i10,13 3 1,0", "rot90 i13,10 1 -2,-1"] { out(l.to_string()); }
+              "roll i3 5 0,-1", "roll i2,5 1,2 1,-1", "rot90 2,3:0,1,0,2,0,3 1 0,1", "rot90 i8,9 1 0,1", "rot90 i9,8 1 0,1", "rot90 i10,13 3 1,0", "rot90 i13,10 1 -2,-1",
+              // round-4 corpus: all elements `==` but not identical (zeros of both signs: the `v` images); a quarter turn of more than 2^20 elements
+              "v roll i3 1 0", "v roll 2,2:0,1,1,1 -1 none", "v roll 1,2,2:0,1,0,1 7 -1", "n rot90 iota:3,400001 1 0,1"] { out(l.to_string()); }
     let mut all = shapes(1, 4, 1, 3);
     all.extend(vec![vec![4], vec![2, 4], vec![5, 2], vec![2, 2, 4], vec![1, 4, 2, 2]]);
     for s in &all {
@@ -221,6 +230,9 @@ fn gen(tier: &str, seed: u64, out: &mut dyn FnMut(String)) {
     }
     // ---- robustness streams, part 2: hidden state, huge sizes, exact lengths and values, long lists and high ranks
     gen_part2(thorough, &mut rng, out);
+    // ---- robustness streams, part 3: giant sizes, element layouts, value relations, shifts whose stride product wraps
+    gen_part3(thorough, &mut rng, out);
+    out("oracle_report final".to_string());
 }
 
 
@@ -407,7 +419,110 @@ fn gen_part2(thorough: bool, rng: &mut Rng, out: &mut dyn FnMut(String)) {
         for _ in 0..(if thorough { 40 } else { 12 }) { let (i, j) = (rng.below(nd), rng.below(nd)); out(format!("rot90 {a} {} {},{}", rng.below(8), spell(i, nd, rng.below(2) == 0), spell(j, nd, rng.below(2) == 0))); }
         out(format!("rot90 {a} 1 0,{}", nd - 1)); out(format!("rot90 {a} 3 {},0", nd - 1)); out(format!("rot90 {a} 1 {},{}", nd - 2, nd - 1)); out(format!("flip {a} none")); out(format!("fliplr {a}")); out(format!("flipud {a}"));
     }
-    out("oracle_report final".to_string());
+}
+
+// ---------------------------------------------------------------- robustness streams, part 3 (generator)
+
+/// blocks into which the crate's flip / roll along `ax` cuts the flat vector (its own `split` is quadratic in that number); for an
+/// inner axis the code cuts along the first axis and recurses into every block
+fn cut_cost(s: &[usize], ax: usize) -> usize {
+    if ax == 0 { s[0] } else if ax + 1 == s.len() { s[..ax].iter().product() } else { s[0].max(cut_cost(&s[1..], ax - 1)) }
+}
+
+/// all-equal / few-valued explicit arrays: `v` = the tag of every element, or 0/1 tags chosen by the generator
+fn const_arr(s: &[usize], v: i64) -> String { let n: usize = s.iter().product(); format!("{}:{}", show_list(s), show_list(&vec![v; n])) }
+fn binary_arr(s: &[usize], rng: &mut Rng) -> String { let n: usize = s.iter().product(); format!("{}:{}", show_list(s), show_list(&(0..n).map(|_| rng.below(2) as i64).collect::<Vec<_>>())) }
+
+fn gen_part3(thorough: bool, rng: &mut Rng, out: &mut dyn FnMut(String)) {
+    // ---- (13) value relations: every operation of the property on arrays whose elements are all `==` without being identical. The
+    // `v` prefix makes the harness run every value-relation image of the tag array (f64 / f32 / Tuple2 / List made of 0.0 and -0.0
+    // only, the user types AllEq and Label) and every layout image (12-, 3-, 32-byte elements) on both receivers.
+    let mut vs = shapes(1, 3, 1, 3);
+    vs.extend([vec![4], vec![5], vec![2, 4], vec![5, 2], vec![1, 7], vec![7, 1], vec![2, 2, 2, 2], vec![1, 2, 1, 3], vec![8, 9], vec![9, 8], vec![2, 3, 4], vec![7, 1, 9], vec![16, 17], vec![3, 4, 5, 2], vec![2, 2, 2, 2, 2]]);
+    if thorough { vs.extend(shapes(4, 4, 1, 3)); vs.extend([vec![33, 31], vec![64, 65], vec![100], vec![9, 10, 11], vec![70, 70]]); }
+    for s in &vs {
+        let n: usize = s.iter().product();
+        gen_robust(&tag(s), s, n >= 600, rng, &mut |l| out(format!("v {l}")));
+    }
+    // constant arrays (one tag everywhere: every image is a constant source; the result must still have the right SHAPE and a
+    // refused call must still be refused), 0/1 arrays (few values, long runs), a single odd element first / last
+    let mut cs = shapes(1, 2, 1, 3); cs.extend([vec![2, 3, 2], vec![1, 1, 1], vec![3, 1, 2], vec![4, 5], vec![8, 9], vec![2, 2, 2, 2], vec![30]]);
+    for s in &cs {
+        let n: usize = s.iter().product();
+        for a in [const_arr(s, 0), const_arr(s, 7), binary_arr(s, rng)] { gen_robust(&a, s, false, rng, &mut |l| out(format!("v {l}"))); }
+        let mut one = vec![0i64; n]; one[n - 1] = 1;
+        let a = format!("{}:{}", show_list(s), show_list(&one));
+        for sh in [1isize, -1, 2, n as isize + 1] { out(format!("v roll {a} {sh} none")); out(format!("v roll {a} {sh} {}", spell(s.len() - 1, s.len(), sh % 2 == 0))); out(format!("v roll {a} {sh} 0")); }
+        out(format!("v flip {a} none")); out(format!("v flip {a} 0")); if s.len() >= 2 { out(format!("v rot90 {a} 1 0,1")); out(format!("v rot90 {a} 3 -1,0")); }
+    }
+    // a refused call on a constant array followed by a valid one; constant arrays of equal element count back to back
+    out(seq(&[format!("v roll {} 1 2", const_arr(&[2, 3], 0)), format!("v roll {} 1 1", const_arr(&[2, 3], 0)), format!("v rot90 {} 1 0,1", const_arr(&[2, 3], 0)), format!("v rot90 {} 1 0,1", const_arr(&[3, 2], 0)), format!("v roll i2,3 1 1")]));
+
+    // ---- (15) shifts and turn counts whose product with a stride wraps modulo 2^64 (ceil(k * 2^64 / stride) + c fits an isize for
+    // stride >= 3): along every axis and along the flat order; single shifts only (the code ADDS the shifts of one axis as isize)
+    for s in [vec![5usize], vec![2, 3], vec![3, 4, 2], vec![7, 9], vec![4, 4], vec![8, 2, 2], vec![3, 5, 7], vec![2, 16, 3]] {
+        let a = tag(&s); let nd = s.len(); let n: usize = s.iter().product();
+        let mut strides: Vec<u128> = (0..nd).map(|i| s[i + 1..].iter().product::<usize>() as u128).collect(); strides.push(n as u128); strides.extend(s.iter().map(|&d| d as u128));
+        strides.sort(); strides.dedup();
+        for st in strides { if st < 3 { continue; } for k in 1..st { 
+            let v = ((k << 64) + st - 1) / st; if v >= 1u128 << 63 { break; }
+            for c in [0u128, 1] { let sh = (v + c) as i128;
+                out(format!("roll {a} {sh} none")); out(format!("roll {a} -{sh} none"));
+                for i in 0..nd { if (k as usize + i) % 2 == 0 || thorough || nd <= 2 { out(format!("roll {a} {} {}", if i % 2 == 0 { sh } else { -sh }, spell(i, nd, c == 1))); } }
+            }
+            if k >= 3 && !thorough { break; }
+        } }
+        if nd >= 2 { for k in [(1u128 << 62) + 1, (1 << 63) + 3, (1 << 63) + 2, u64::MAX as u128, u64::MAX as u128 - 2, 6148914691236517206, 12297829382473034411] { out(format!("rot90 {a} {k} 0,{}", nd - 1)); out(format!("rot90 {a} {k} -1,0")); } }
+    }
+
+    // ---- (11) giant sizes: more than 2^20 elements (`iota:<shape>`, built by the harness, compared in place with the native reference
+    // run on the iota tags). Ranks 1-4, first / middle / last axis, extents that are / are not multiples of 64, every operation.
+    // The crate's own `split` is quadratic in the number of blocks, so a flip / roll (also the flip inside a quarter turn) is only
+    // asked for where it cuts into at most `lim` blocks; the long axis is then the lane, the flat order, or the transposed side.
+    let g = |s: &[usize]| format!("iota:{}", show_list(s));
+    let quick: Vec<(Vec<usize>, Vec<&str>)> = vec![
+        (vec![3, 400_001], vec!["rot90 @ 1 1,0", "rot90 @ 5 -2,-1", "rot90 @ 2 0,1", "roll @ 7 1", "flip @ 0"]),
+        (vec![400_001, 3], vec!["rot90 @ 3 0,1", "roll @ -400002 none"]),
+        (vec![1031, 1033], vec!["rot90 @ 1 0,1", "rot90 @ 3 1,0", "flip @ 1,0", "roll @ 3,-5 0,1", "fliplr @"]),
+        (vec![1024, 1025], vec!["rot90 @ 1 0,-1", "roll @ 1 0"]),
+        (vec![1025, 1024], vec!["rot90 @ 3 0,1", "flipud @"]),
+        (vec![1024, 1024], vec!["rot90 @ 7 1,0"]),
+        (vec![1 << 20 | 5], vec!["roll @ 70001 0", "flip @ none"]),
+        (vec![2_097_153], vec!["roll @ -1 none"]),
+        (vec![600, 2, 1000], vec!["flip @ 1", "roll @ 1 -2", "rot90 @ 1 0,2"]),
+        (vec![2, 3, 174_763], vec!["rot90 @ 1 1,2", "roll @ 1,2,3 0,1,2", "flip @ -1"]),
+        (vec![65, 129, 127], vec!["rot90 @ 3 1,0", "flip @ 0,1"]),
+        (vec![4, 3, 5, 17_477], vec!["rot90 @ 1 0,3", "roll @ -1 2", "flip @ 1,3"]),
+        (vec![33, 32, 31, 33], vec!["rot90 @ 1 1,2", "roll @ 5 1"]),
+    ];
+    for (s, calls) in &quick { for c in calls { out(format!("n {}", c.replace('@', &g(s)))); } }
+    // a refused call on a giant array directly followed by a valid one
+    out(seq(&[format!("n rot90 {} 1 0,2", g(&[3, 400_001])), format!("n roll {} 1 2", g(&[3, 400_001])), format!("n rot90 {} 1 0,1", g(&[3, 400_001]))]));
+    if thorough {
+        let mut giants = giant_shapes();
+        giants.extend([vec![1024, 1025], vec![1025, 1024], vec![1024, 1024], vec![1088, 1000], vec![2050, 520], vec![100, 10_486], vec![10_486, 100], vec![63, 16_645], vec![1449, 1451], vec![1, 1_048_577], vec![1_048_583, 1],
+                       vec![128, 128, 64], vec![128, 65, 128], vec![4, 3, 5, 17_477], vec![33, 32, 31, 33], vec![2, 2, 2, 131_073], vec![16, 65, 16, 64], vec![3, 5, 7, 11, 13, 73]]);
+        let lim = 9000usize;
+        for (q, s) in giants.iter().enumerate() {
+            let a = g(s); let nd = s.len(); let n: usize = s.iter().product(); let ni = n as isize;
+            out(format!("n flip {a} none")); out(format!("n roll {a} {} none", ni / 2 + 1)); out(format!("n roll {a} -1 none")); out(format!("n roll {a} 3,4 none"));
+            if nd == 1 { out(format!("n roll {a} 65 0")); out(format!("n roll {a} {} -1", -(ni + 63))); continue; }
+            let ok: Vec<bool> = (0..nd).map(|i| cut_cost(s, i) <= lim).collect();
+            for i in 0..nd { if ok[i] { let d = s[i] as isize;
+                out(format!("n flip {a} {}", spell(i, nd, (i + q) % 2 == 1)));
+                out(format!("n roll {a} 1 {}", spell(i, nd, (i + q) % 2 == 0))); out(format!("n roll {a} {} {i}", -(d / 2) - d));
+            } }
+            if ok[0] { out(format!("n flipud {a}")); } if ok[1] { out(format!("n fliplr {a}")); }
+            let good: Vec<isize> = (0..nd).rev().filter(|&i| ok[i]).map(|i| spell(i, nd, i % 2 == 0)).collect();
+            if good.len() >= 2 { out(format!("n flip {a} {}", show_list(&good))); out(format!("n roll {a} {} {}", show_list(&(0..good.len() as isize).map(|x| 2 * x - 3).collect::<Vec<_>>()), show_list(&good))); }
+            for i in 0..nd { for j in 0..nd { if i == j && i != nd - 1 { continue; } for k in [1usize, 2, 3] {
+                if nd > 2 && (i + 2 * j + k + q) % 3 != 0 { continue; }
+                let mut t = s.clone(); t.swap(i, j);
+                let fine = match k { 1 => ok[j], 3 => cut_cost(&t, j) <= lim, _ => ok[i] && ok[j] };
+                if fine { out(format!("n rot90 {a} {} {},{}", if (i + q) % 3 == 0 { k + 4 } else { k }, spell(i, nd, (q + k) % 2 == 1), spell(j, nd, (i + k) % 2 == 1))); }
+            } } }
+        }
+    }
 }
 
 // ---------------------------------------------------------------- harness-native reference (coordinate formulas)
@@ -445,6 +560,11 @@ fn swap_axes(shape: &[usize], e: &[i64], i: usize, j: usize) -> (Vec<usize>, Vec
 /// `Some(None)` = the call must be refused.
 fn oracle(op: &str, args: &[&str]) -> Option<Option<(Vec<usize>, Vec<i64>)>> {
     let (shape, e) = parse_arr_raw(args.first()?);
+    oracle_on(shape, e, op, args)
+}
+/// the reference on given data (`args[0]` is not read): the giant cases pass the iota tags, so that the answer holds the SOURCE
+/// position of every result position — the very code that is compared with the model on every ordinary case
+fn oracle_on(shape: Vec<usize>, e: Vec<i64>, op: &str, args: &[&str]) -> Option<Option<(Vec<usize>, Vec<i64>)>> {
     let nd = shape.len(); let n = e.len();
     if n == 0 || nd == 0 || shape.iter().product::<usize>() != n { return None; }
     let axes_of = |s: &str| -> Option<Vec<usize>> { parse_isize_list(s).into_iter().map(|a| norm_axis(a, nd)).collect() };
@@ -533,10 +653,143 @@ fn plain_i64(op: &str, args: &[&str]) -> Option<String> {
     })
 }
 
-fn elems_of(args: &[&str]) -> usize { args.first().map_or(0, |s| { let body = s.strip_prefix('i').unwrap_or(s); let sh = body.split(|c| c == '+' || c == ':').next().unwrap_or("-"); parse_usize_list(sh).iter().product() }) }
+// ---------------------------------------------------------------- robustness streams, part 3 (executor side)
+
+static IMAGE_RUNS: AtomicUsize = AtomicUsize::new(0);
+static GIANT_RUNS: AtomicUsize = AtomicUsize::new(0);
+
+/// a user element type whose `==` is the coarsest equivalence (always true): ALL arrays of it are "all elements equal but not
+/// identical"; the harness compares the payload
+#[derive(Clone, Debug)]
+struct AllEq(i64);
+impl PartialEq for AllEq { fn eq(&self, _: &Self) -> bool { true } }
+impl PartialOrd for AllEq { fn partial_cmp(&self, _: &Self) -> Option<std::cmp::Ordering> { Some(std::cmp::Ordering::Equal) } }
+impl std::fmt::Display for AllEq { fn fmt(&self, f: &mut std::fmt::Formatter<'_>) -> std::fmt::Result { write!(f, "{}", self.0) } }
+impl ArrayElement for AllEq { fn zero() -> Self { AllEq(0) } fn one() -> Self { AllEq(1) } fn is_nan(&self) -> bool { false } }
+/// case-insensitive label: `==` coarser than identity, but not everything equal (tags t and t + 2 share a label up to case)
+#[derive(Clone, Debug)]
+struct Label(String);
+impl PartialEq for Label { fn eq(&self, o: &Self) -> bool { self.0.eq_ignore_ascii_case(&o.0) } }
+impl PartialOrd for Label { fn partial_cmp(&self, o: &Self) -> Option<std::cmp::Ordering> { self.0.to_ascii_lowercase().partial_cmp(&o.0.to_ascii_lowercase()) } }
+impl std::fmt::Display for Label { fn fmt(&self, f: &mut std::fmt::Formatter<'_>) -> std::fmt::Result { write!(f, "{}", self.0) } }
+impl ArrayElement for Label { fn zero() -> Self { Label(String::new()) } fn one() -> Self { Label("1".into()) } fn is_nan(&self) -> bool { false } }
+
+fn zs(neg: bool) -> f64 { if neg { -0.0 } else { 0.0 } }
+fn zs32(neg: bool) -> f32 { if neg { -0.0 } else { 0.0 } }
+fn optl(s: &str) -> Option<Vec<isize>> { if s == "none" { None } else { Some(parse_isize_list(s)) } }
+
+/// the real call, generic in the element type (`T: ArrayElement` is all the operations ask for); `args[0]` (the array) is not read
+fn call_op<T: ArrayElement>(a: &Array<T>, op: &str, args: &[&str], chained: bool) -> Option<Result<Array<T>, ArrayError>> {
+    let ok = || Ok::<Array<T>, ArrayError>(a.clone());
+    Some(match op {
+        "flip" => { let ax = optl(args.get(1)?); if chained { ok().flip(ax) } else { a.flip(ax) } }
+        "flipud" => if chained { ok().flipud() } else { a.flipud() },
+        "fliplr" => if chained { ok().fliplr() } else { a.fliplr() },
+        "roll" => { let sh = parse_isize_list(args.get(1)?); let ax = optl(args.get(2)?); if chained { ok().roll(sh, ax) } else { a.roll(sh, ax) } }
+        "rot90" => { let k: usize = args.get(1)?.parse().ok()?; let ax = parse_isize_list(args.get(2)?); if chained { ok().rot90(k, ax) } else { a.rot90(k, ax) } }
+        _ => return None,
+    })
+}
+
+/// the result of the call on one IMAGE of the tag array (element = `of(tag)`) against the result on the tags themselves: same outcome
+/// class, same shape, and at every position the image of the tag that the i64 run put there (`same` = identity, not `==`)
+fn judge_image<T: ArrayElement>(name: &str, r: std::thread::Result<Option<Result<Array<T>, ArrayError>>>, want: &Result<(Vec<usize>, Vec<i64>), ()>, of: &dyn Fn(i64) -> T, same: &dyn Fn(&T, &T) -> bool) -> Option<String> {
+    let r = match r { Ok(Some(r)) => r, Ok(None) => return Some(format!("harness: cannot run the call on {name}")), Err(_) => return Some(format!("the run on {name} panics")) };
+    match (&r, want) {
+        (Err(_), Err(())) => None,
+        (Ok(a), Ok((ws, we))) => {
+            let (sh, el) = (a.get_shape().unwrap(), a.get_elements().unwrap());
+            if !consistent(a) { return Some(format!("INCONSISTENT result on {name}: shape {} with {} elements", show_list(&sh), el.len())); }
+            if &sh != ws { return Some(format!("the run on {name} gives shape {} instead of {}", show_list(&sh), show_list(ws))); }
+            if el.len() != we.len() { return Some(format!("the run on {name} gives {} elements instead of {}", el.len(), we.len())); }
+            let mut bad = 0usize; let mut first = None;
+            for p in 0..el.len() { if !same(&el[p], &of(we[p])) { bad += 1; if first.is_none() { first = Some(p); } } }
+            first.map(|p| format!("the run on {name} differs at {bad} of {} positions, the first at flat position {p}: {:?} instead of {:?} (the element with tag {})", el.len(), el[p], of(we[p]), we[p]))
+        }
+        (Err(e), Ok(_)) => Some(format!("the run on {name} is refused ({}) although the call is valid", err_name(e))),
+        (Ok(_), Err(())) => Some(format!("the run on {name} succeeds although the call must be refused")),
+    }
+}
+
+/// one image on both receivers
+fn image_pair<T: ArrayElement>(name: &str, shape: &[usize], tags: &[i64], want: &Result<(Vec<usize>, Vec<i64>), ()>, op: &str, args: &[&str], of: &dyn Fn(i64) -> T, same: &dyn Fn(&T, &T) -> bool) -> Option<String> {
+    let a = Array::new(tags.iter().map(|&t| of(t)).collect(), shape.to_vec()).expect("harness: image array");
+    for chained in [false, true] {
+        IMAGE_RUNS.fetch_add(1, Ordering::Relaxed);
+        let r = std::panic::catch_unwind(std::panic::AssertUnwindSafe(|| call_op(&a, op, args, chained)));
+        if let Some(d) = judge_image(&format!("{name}{}", if chained { ", call on Ok(array)" } else { "" }), r, want, of, same) { return Some(d); }
+    }
+    None
+}
+
+/// VALUE-RELATION and LAYOUT images of an ordinary case (level 1: one all-zero f64 image and the always-equal user type; level 2: all).
+/// The truth is the plain i64 run of the same call, which the caller compares with the model.
+fn images(op: &str, args: &[&str], level: usize) -> Option<String> {
+    if level == 0 { return None; }
+    let (shape, tags) = parse_arr_raw(args.first()?);
+    let ri = match std::panic::catch_unwind(std::panic::AssertUnwindSafe(|| call_op(&Array::new(tags.clone(), shape.clone()).expect("harness: array literal"), op, args, false))) { Ok(Some(r)) => r, _ => return None };
+    let want: Result<(Vec<usize>, Vec<i64>), ()> = match &ri { Ok(a) => Ok((a.get_shape().unwrap(), a.get_elements().unwrap())), Err(_) => Err(()) };
+    let fb = |a: &f64, b: &f64| a.to_bits() == b.to_bits();
+    // all elements are zeros, both signs present (as long as the tags differ): `==` holds between all of them
+    let lo = tags.iter().copied().min().unwrap_or(0);
+    if let Some(d) = image_pair("f64 zeros, -0.0 for the smallest tag only", &shape, &tags, &want, op, args, &|t| zs(t == lo), &fb) { return Some(d); }
+    if let Some(d) = image_pair("the user type AllEq (== always true)", &shape, &tags, &want, op, args, &|t| AllEq(t), &|a: &AllEq, b: &AllEq| a.0 == b.0) { return Some(d); }
+    if level < 2 { return None; }
+    if let Some(d) = image_pair("f64 zeros, -0.0 for odd tags", &shape, &tags, &want, op, args, &|t| zs(t % 2 != 0), &fb) { return Some(d); }
+    if let Some(d) = image_pair("f64 zeros, +0.0 for the smallest tag only", &shape, &tags, &want, op, args, &|t| zs(t != lo), &fb) { return Some(d); }
+    if let Some(d) = image_pair("f32 zeros, -0.0 for tags = 1 mod 3", &shape, &tags, &want, op, args, &|t| zs32(t.rem_euclid(3) == 1), &|a: &f32, b: &f32| a.to_bits() == b.to_bits()) { return Some(d); }
+    if let Some(d) = image_pair("Tuple2<f64,f32> of zeros", &shape, &tags, &want, op, args, &|t| Tuple2(zs(t & 1 != 0), zs32(t & 2 != 0)), &|a: &Tuple2<f64, f32>, b: &Tuple2<f64, f32>| a.0.to_bits() == b.0.to_bits() && a.1.to_bits() == b.1.to_bits()) { return Some(d); }
+    if let Some(d) = image_pair("List<f64> of two zeros", &shape, &tags, &want, op, args, &|t| List(vec![zs(t == lo), zs(t & 1 != 0)]), &|a: &List<f64>, b: &List<f64>| a.0.len() == b.0.len() && a.0.iter().zip(&b.0).all(|(x, y)| x.to_bits() == y.to_bits())) { return Some(d); }
+    if let Some(d) = image_pair("the user type Label (case-insensitive ==)", &shape, &tags, &want, op, args, &|t| Label(if t & 2 != 0 { format!("Q{}", t & 1) } else { format!("q{}", t & 1) } + if t & 4 != 0 { "X" } else { "x" }), &|a: &Label, b: &Label| a.0 == b.0) { return Some(d); }
+    // element layout: 12 bytes, 3 bytes, 32 bytes and not Copy
+    if let Some(d) = image_pair("Tuple3<i32,i32,i32> (12 bytes)", &shape, &tags, &want, op, args, &tag_t3, &|a: &T3, b: &T3| a == b) { return Some(d); }
+    if let Some(d) = image_pair("Tuple3<u8,u8,u8> (3 bytes)", &shape, &tags, &want, op, args, &tag_t3b, &|a: &T3b, b: &T3b| a == b) { return Some(d); }
+    if let Some(d) = image_pair("Tuple2<String,i32> (32 bytes, not Copy)", &shape, &tags, &want, op, args, &tag_tw, &|a: &TW, b: &TW| a == b) { return Some(d); }
+    None
+}
+
+fn fnv(s: &str) -> u64 { s.bytes().fold(0xcbf29ce484222325u64, |h, b| (h ^ b as u64).wrapping_mul(0x100000001b3)) }
+
+/// a giant array whose flat element k is `from(k)` (never written into a case line, never formatted)
+fn giant_image<T: ArrayElement>(shape: &[usize], from: impl Fn(i64) -> T) -> Array<T> {
+    let n: usize = shape.iter().product();
+    Array::new((0..n as i64).map(from).collect(), shape.to_vec()).expect("harness: giant array")
+}
+
+/// `n call iota:<shape> …`: more than 2^20 elements. The native reference runs on the iota tags (so its answer is the source position
+/// of every result position) and the crate's results are compared IN PLACE: the i64 tags on the plain receiver, the u8 image on
+/// `Ok(array)`, and one further image chosen by the case line (12-byte tuples / all-zero f64 with both signs / 3-byte tuples / AllEq).
+fn exec_giant(op: &str, args: &[&str]) -> Option<Verdict> {
+    let shape = parse_usize_list(args.first()?.strip_prefix("iota:")?);
+    let n: usize = shape.iter().product();
+    let want: Result<(Vec<usize>, Vec<i64>), ()> = match oracle_on(shape.clone(), (0..n as i64).collect(), op, args)? { Some(w) => Ok(w), None => Err(()) };
+    ORACLE_ONLY.fetch_add(1, Ordering::Relaxed);
+    let run = |d: Option<String>| d.map(|d| Some(Verdict::Mismatch { observed: "giant result (not printed)".into(), detail: format!("differs from the harness-native coordinate reference: {d}") }));
+    macro_rules! one { ($name:expr, $chained:expr, $of:expr, $same:expr) => {{
+        GIANT_RUNS.fetch_add(1, Ordering::Relaxed);
+        let r = { let a = giant_image(&shape, $of); std::panic::catch_unwind(std::panic::AssertUnwindSafe(|| call_op(&a, op, args, $chained))) };
+        if let Some(m) = run(judge_image($name, r, &want, &$of, &$same)) { return m; }
+    }} }
+    one!("the i64 tags, plain receiver", false, |k: i64| k, |a: &i64, b: &i64| a == b);
+    one!("the u8 image, call on Ok(array)", true, tag_u8, |a: &u8, b: &u8| a == b);
+    if want.is_ok() { match fnv(&format!("{op} {}", args.join(" "))) % 4 {
+        0 => one!("Tuple3<i32,i32,i32> (12 bytes), plain receiver", false, tag_t3, |a: &T3, b: &T3| a == b),
+        1 => one!("f64 zeros (-0.0 where the position is 3 mod 7), plain receiver", false, |k: i64| zs(k % 7 == 3), |a: &f64, b: &f64| a.to_bits() == b.to_bits()),
+        2 => one!("Tuple3<u8,u8,u8> (3 bytes), call on Ok(array)", true, tag_t3b, |a: &T3b, b: &T3b| a == b),
+        _ => one!("the user type AllEq (== always true), plain receiver", false, |k: i64| AllEq(k), |a: &AllEq, b: &AllEq| a.0 == b.0),
+    } }
+    Some(Verdict::Match(match &want { Ok((s, _)) => format!("ok native (giant: shape {} compared in place with the harness-native reference)", show_list(s)), Err(()) => "err (giant: refused, as the reference demands)".into() }))
+}
+
+/// the shape named by an array token (`i2,3`, `i2,3+7`, `2,3:…`, `iota:2,3`)
+fn shape_of_token(s: &str) -> Vec<usize> {
+    if let Some(sh) = s.strip_prefix("iota:") { return parse_usize_list(sh); }
+    let body = s.strip_prefix('i').unwrap_or(s); let sh = body.split(|c| c == '+' || c == ':').next().unwrap_or("-"); parse_usize_list(sh)
+}
+fn elems_of(args: &[&str]) -> usize { args.first().map_or(0, |s| shape_of_token(s).iter().product()) }
 
 /// one ordinary call line against the model's answer; on the way the native reference is compared with the model
-fn exec_call(op: &str, args: &[&str], expected: &str) -> Option<Verdict> {
+fn exec_call(op: &str, args: &[&str], expected: &str, full: bool) -> Option<Verdict> {
     // the four further element types: arrays of at most 600 elements, one case line in three
     let more = elems_of(args) <= 600 && args.iter().map(|a| a.len()).sum::<usize>() % 3 == 0;
     let obs = run_call(op, args, more)?;
@@ -549,17 +802,30 @@ fn exec_call(op: &str, args: &[&str], expected: &str) -> Option<Verdict> {
             ORACLE_CHECKED.fetch_add(1, Ordering::Relaxed);
         }
     }
-    Some(compare_default(obs, expected))
+    let v = compare_default(obs, expected);
+    // part 3: the value-relation and layout images of the case (all of them on `v` lines and on one small case in three, two of
+    // them on the other small cases and on half of the cases up to 5000 elements)
+    if let Verdict::Match(o) = &v {
+        let (n, h) = (elems_of(args), fnv(&format!("{op} {}", args.join(" "))));
+        let level = if full { 2 } else if n <= 600 { if h % 3 == 0 { 2 } else { 1 } } else if n <= 5000 && h % 2 == 0 { 1 } else { 0 };
+        if let Some(d) = images(op, args, level) { return Some(Verdict::Mismatch { observed: o.clone(), detail: format!("IMAGE-DIVERGENCE {d}") }); }
+    }
+    Some(v)
 }
 
 /// `n call…`: a huge array; the driver answers `ok native`, the crate is judged by the native reference
 fn exec_native(args: &[&str], expected: &str) -> Option<Verdict> {
     if expected != "ok native" { return Some(compare_default("harness: an `n` line expects the driver to answer `ok native`".into(), expected)); }
     let (op, rest) = (*args.first()?, &args[1..]);
+    if rest.first()?.starts_with("iota:") { return exec_giant(op, rest); }
     let want = oracle_text(&oracle(op, rest)?);      // `n` lines are only generated where the reference has an opinion
     ORACLE_ONLY.fetch_add(1, Ordering::Relaxed);
     let obs = run_call(op, rest, false)?;
-    if obs == want || (class_of(&obs) == "err" && want == "err") { return Some(Verdict::Match(format!("ok native ({} bytes as the harness-native reference)", obs.len()))); }
+    if obs == want || (class_of(&obs) == "err" && want == "err") {
+        // part 3: one line in two also runs the two cheapest value-relation images (all-zero f64 with one -0.0, AllEq)
+        if fnv(&args.join(" ")) % 2 == 0 { if let Some(d) = images(op, rest, 1) { return Some(Verdict::Mismatch { observed: truncate(&obs, 300), detail: format!("IMAGE-DIVERGENCE {d}") }); } }
+        return Some(Verdict::Match(format!("ok native ({} bytes as the harness-native reference)", obs.len())));
+    }
     Some(Verdict::Mismatch { detail: format!("differs from the harness-native coordinate reference: {}; reference `{}`", diff_detail(&obs, &want), truncate(&want, 300)), observed: truncate(&obs, 1500) })
 }
 
@@ -576,8 +842,8 @@ fn exec(op: &str, args: &[&str], expected: &str) -> Option<Verdict> {
 fn exec_line(op: &str, args: &[&str], expected: &str) -> Option<Verdict> {
     match op {
         "oracle_report" => {
-            let text = format!("ok report: so far the harness-native reference agreed with the full model answer on {} cases (no opinion on {}), {} huge calls judged by the reference only, {} calls inside seq lines, {} implicit A-B-A re-runs",
-                ORACLE_CHECKED.load(Ordering::Relaxed), ORACLE_SILENT.load(Ordering::Relaxed), ORACLE_ONLY.load(Ordering::Relaxed), SEQ_CALLS.load(Ordering::Relaxed), ABA_RERUNS.load(Ordering::Relaxed));
+            let text = format!("ok report: so far the harness-native reference agreed with the full model answer on {} cases (no opinion on {}), {} huge calls judged by the reference only, {} calls inside seq lines, {} implicit A-B-A re-runs, {} value-relation / layout image runs, {} giant runs compared in place",
+                ORACLE_CHECKED.load(Ordering::Relaxed), ORACLE_SILENT.load(Ordering::Relaxed), ORACLE_ONLY.load(Ordering::Relaxed), SEQ_CALLS.load(Ordering::Relaxed), ABA_RERUNS.load(Ordering::Relaxed), IMAGE_RUNS.load(Ordering::Relaxed), GIANT_RUNS.load(Ordering::Relaxed));
             if expected != "ok report" { return Some(compare_default(text, expected)); }
             // the final report fails when the reference was (almost) never validated although it was relied upon
             if args.first() == Some(&"final") && ORACLE_ONLY.load(Ordering::Relaxed) > 0 && ORACLE_CHECKED.load(Ordering::Relaxed) < 1000 {
@@ -586,6 +852,8 @@ fn exec_line(op: &str, args: &[&str], expected: &str) -> Option<Verdict> {
             Some(Verdict::Match(text))
         }
         "n" => exec_native(args, expected),
+        // `v call`: the call with ALL value-relation and layout images
+        "v" => exec_call(args.first()?, &args[1..], expected, true),
         "seq" => {
             let calls: Vec<&[&str]> = args.split(|t| *t == "/").collect();
             let exps: Vec<&str> = expected.split(" / ").collect();
@@ -593,7 +861,7 @@ fn exec_line(op: &str, args: &[&str], expected: &str) -> Option<Verdict> {
             let mut texts = vec![]; let mut bad: Option<String> = None;
             for (q, (c, e)) in calls.iter().zip(&exps).enumerate() {
                 SEQ_CALLS.fetch_add(1, Ordering::Relaxed);
-                let v = if c.first() == Some(&"n") { exec_native(&c[1..], e)? } else { exec_call(c.first()?, &c[1..], e)? };
+                let v = if c.first() == Some(&"n") { exec_native(&c[1..], e)? } else if c.first() == Some(&"v") { exec_call(c.get(1)?, &c[2..], e, true)? } else { exec_call(c.first()?, &c[1..], e, false)? };
                 match v {
                     Verdict::Match(o) | Verdict::Open(o) => texts.push(truncate(&o, 400)),
                     Verdict::Mismatch { observed, detail } => { if bad.is_none() { bad = Some(format!("call {} of the sequence (`{}`): {}", q + 1, c.join(" "), detail)); } texts.push(truncate(&observed, 400)); }
@@ -603,7 +871,7 @@ fn exec_line(op: &str, args: &[&str], expected: &str) -> Option<Verdict> {
             Some(match bad { Some(d) => Verdict::Mismatch { observed: obs, detail: d }, None => Verdict::Match(obs) })
         }
         _ => {
-            let v = exec_call(op, args, expected)?;
+            let v = exec_call(op, args, expected, false)?;
             // implicit A–B–A: after a share of the small cases the PREVIOUS case is run again and must repeat its answer
             let small = elems_of(args) <= 600;
             if small && args.iter().map(|a| a.len()).sum::<usize>() % 4 == 1 {
@@ -626,7 +894,8 @@ fn nontrivial(op: &str, args: &[&str]) -> bool {
         "oracle_report" => false,
         "seq" => args.split(|t| *t == "/").any(|c| !c.is_empty() && nontrivial(c[0], &c[1..])),
         "n" => args.len() >= 2 && nontrivial(args[0], &args[1..]),
-        _ => { let s = args[0]; let body = s.strip_prefix('i').unwrap_or(s); let sh = body.split(|c| c == '+' || c == ':').next().unwrap_or("-"); parse_usize_list(sh).iter().filter(|&&d| d > 1).count() >= 2 }
+        "v" => args.len() >= 2 && nontrivial(args[0], &args[1..]),
+        _ => shape_of_token(args[0]).iter().filter(|&&d| d > 1).count() >= 2,
     }
 }
 
